@@ -17,27 +17,31 @@ MaxSet(S) == IF S = {} THEN 0 ELSE CHOOSE x \in S : \A y \in S : x >= y
 VARIABLES l, known, told, lastPolled, now, out, res, sleepUntil, ok, viol
 vars == <<l, known, told, lastPolled, now, out, res, sleepUntil, ok, viol>>
 
-Init == l = 1 /\ known = 0 /\ told = {} /\ lastPolled = -1 /\ now = 0 /\ out = 0 /\ res = -1
+Init == l = 1 /\ known = 0 /\ told = 0 /\ lastPolled = -1 /\ now = 0 /\ out = 0 /\ res = -1
         /\ sleepUntil = 0 /\ ok = FALSE /\ viol = {}
 
 Line == Rec[l]
 Judge(k, t, lp, o, su, n, started) ==
-  (IF started /\ k # MaxSet(t) THEN {"KnownIsMax"} ELSE {})
+  (IF started /\ k # t THEN {"KnownIsMax"} ELSE {})
   \cup (IF started /\ ok /\ k < known THEN {"Monotone"} ELSE {})
   \cup (IF started /\ lp # -1 /\ k < lp THEN {"CaughtUp"} ELSE {})
-  \cup (IF started /\ o = 0 /\ ~(n < su) THEN {"PollOnTime"} ELSE {})
+  \cup (IF started /\ Line.ev # "batch" /\ o = 0 /\ ~(n < su) THEN {"PollOnTime"} ELSE {})
 
 Next ==
   /\ l <= N /\ l' = l + 1
   /\ IF Line.ev = "reset"
-     THEN /\ known' = 0 /\ told' = {} /\ lastPolled' = -1 /\ now' = 0 /\ out' = 0 /\ res' = -1
+     THEN /\ known' = 0 /\ told' = 0 /\ lastPolled' = -1 /\ now' = 0 /\ out' = 0 /\ res' = -1
           /\ sleepUntil' = 0 /\ ok' = FALSE /\ viol' = {}
      ELSE IF Line.ev = "end"
      THEN /\ (viol # {} => PrintT(<<"BLKVIOL", Line.run, viol>>))
           /\ UNCHANGED <<known, told, lastPolled, now, out, res, sleepUntil, ok, viol>>
      ELSE LET started == Line.started = "ok"
-              t1 == IF Line.ev = "deliver" /\ res # -1 THEN told \cup {res}
-                    ELSE IF Line.ev = "notify" THEN told \cup {Line.h} ELSE told
+              Mx(a, b) == IF a >= b THEN a ELSE b
+              \* `told` is the maximum of everything told so far (the set itself is not needed)
+              t1 == IF Line.ev = "deliver" /\ res # -1 THEN Mx(told, res)
+                    ELSE IF Line.ev = "notify" THEN Mx(told, Line.h)
+                    \* several sources at the very same time (real threads): all of them have been told afterwards
+                    ELSE IF Line.ev = "batch" THEN Mx(told, MaxSet({Line.hs[k] : k \in 1..Len(Line.hs)})) ELSE told
               lp1 == IF Line.ev = "deliver" /\ res # -1 THEN res ELSE lastPolled
               n1 == IF Line.ev = "tick" THEN now + 1 ELSE now
               o1 == (IF Line.ev = "deliver" THEN out - 1 ELSE out) + Line.issued
